@@ -34,7 +34,7 @@ TIMEOUT = {"quick": 900, "thorough": 3400}
 
 
 def gen_cases(tier: str, seed: int) -> list[dict[str, Any]]:
-    n = 96 if tier == "quick" else 4000
+    n = 96 if tier == "quick" else 25000
     cases = []
     for i in range(n):
         c = C09.gen_case(seed + 1000, i)
